@@ -328,6 +328,8 @@ def from_json(j):
             for k, x in j['fields'].items():
                 setattr(o, k, from_json(x))
             return o
+        if '__unset__' in j:
+            return None
         if '__const__' in j:
             modname, name = j['__const__'].split(':')
             return getattr(importlib.import_module(modname), name)
@@ -423,13 +425,17 @@ def gen_object(cls, rnd, fields_decl, depth=0):
     return o
 
 
-def run_crosscheck(repo_root, contracts_dir, idents, n, seed, time_limit=5):
+def run_crosscheck(repo_root, contracts_dir, idents, n, seed, time_limit=5, classmap=None):
     """bounded stand-in: n generated inputs per contract; returns JSON-able report"""
     cs, fields_decl, invs = parse_sidecars(contracts_dir)
     genv = {'implies': lambda a, b: (not a) or b}
     report = {}
+    classmap = classmap or {}
     for ident in idents:
-        c = cs[ident]
+        base_ident = ident
+        if ident not in cs and '@' in ident:
+            base_ident = ident.split('@')[0] + '@*' + (('#' + ident.split('#')[1]) if '#' in ident else '')
+        c = cs[base_ident]
         rnd = random.Random('%s/%s' % (seed, ident))
         rep = {'evaluations': 0, 'skipped': 0, 'violations': [], 'errors': [], 'outcomes': {}}
         report[ident] = rep
@@ -446,8 +452,11 @@ def run_crosscheck(repo_root, contracts_dir, idents, n, seed, time_limit=5):
             try:
                 args = {}
                 for p in sig_params:
-                    if p == 'self' and 'self' not in c.params:
-                        cls = getattr(mod, c.for_class) if c.for_class else resolve_target(mod, c.qualname.rsplit('.', 1)[0])
+                    if p == 'self' and c.params.get('self') is None:
+                        if ident in classmap:
+                            cls = getattr(target_module(repo_root, classmap[ident][0]), classmap[ident][1])
+                        else:
+                            cls = getattr(mod, c.for_class) if c.for_class else resolve_target(mod, c.qualname.rsplit('.', 1)[0])
                         args['self'] = gen_object(cls, rnd, fields_decl)
                     elif p in c.params:
                         args[p] = gen_value(c.params[p], rnd, mod, fields_decl)
@@ -496,6 +505,8 @@ def run_crosscheck(repo_root, contracts_dir, idents, n, seed, time_limit=5):
 
 def replay(repo_root, contracts_dir, ident, inputs_json, ghosts_json=None, time_limit=10):
     cs, fields_decl, invs = parse_sidecars(contracts_dir)
+    if ident not in cs and '@' in ident:
+        ident = ident.split('@')[0] + '@*' + (('#' + ident.split('#')[1]) if '#' in ident else '')
     c = cs[ident]
     mod = target_module(repo_root, c.relpath)
     args = {k: from_json(v) for k, v in inputs_json.items()}
@@ -508,7 +519,7 @@ def replay(repo_root, contracts_dir, ident, inputs_json, ghosts_json=None, time_
 def main():
     req = json.load(sys.stdin)
     if req['cmd'] == 'crosscheck':
-        out = run_crosscheck(req['repo'], req['contracts'], req['idents'], req['n'], req['seed'], req.get('time_limit', 5))
+        out = run_crosscheck(req['repo'], req['contracts'], req['idents'], req['n'], req['seed'], req.get('time_limit', 5), req.get('classmap'))
     elif req['cmd'] == 'replay':
         out = replay(req['repo'], req['contracts'], req['ident'], req['inputs'], req.get('ghosts'), req.get('time_limit', 10))
     else:
